@@ -67,7 +67,7 @@ CONSTANTS Tag,        \* authentication tag length in units (real: 16)
           Faults,     \* fault kinds enabled in this instance
           MaxFaults,  \* faults per behaviour
           Others,     \* subset of {"rev", "peer"}: writes elsewhere between the calls of this direction
-          Glitches    \* subset of {"dataerr", "temperr", "shortwrite"}
+          Glitches    \* subset of {"dataerr", "temperr", "shortwrite", "refusewrite"}
 
 VARIABLES nsent,      \* units accepted by Write so far; the payload is <<1, ..., nsent>>
           wnonce,     \* writer's nonce counter (= frames sealed)
@@ -86,15 +86,18 @@ VARIABLES nsent,      \* units accepted by Write so far; the payload is <<1, ...
           stopPos,    \* ghost: the same for faults other than dup/swap (the reader cannot get past those)
           rg,         \* armed read glitch: "none", "dataerr", "temperr"
           wg,         \* armed short write
+          wr,         \* armed refusal: the next write of the connection is refused whole (0 bytes, error, nothing on
+                      \* the wire); the frame had been sealed, so its nonce is spent: what is written afterwards
+                      \* is sealed with later nonces and the reader FAILS on it (it never gets a wrong byte)
           loose,      \* a read glitch reached the reader: from here on only the statement's clauses are judged
           nglitch,    \* glitches armed so far
           wdead,      \* a Write failed: the writer stops
           op
 
 vars == <<nsent, wnonce, wire, closed, qlive, qbuf, qseek, rnonce, broken, delivered, rdErr, under,
-          nfault, errPos, stopPos, rg, wg, loose, nglitch, wdead, op>>
+          nfault, errPos, stopPos, rg, wg, wr, loose, nglitch, wdead, op>>
 View == <<nsent, wnonce, wire, closed, qlive, qbuf, qseek, rnonce, broken, delivered, rdErr, under,
-          nfault, errPos, stopPos, rg, wg, loose, nglitch, wdead>>
+          nfault, errPos, stopPos, rg, wg, wr, loose, nglitch, wdead>>
 
 Min(a, b) == IF a < b THEN a ELSE b
 Sent == [i \in 1..nsent |-> i]
@@ -104,7 +107,7 @@ NoFault == MaxSent + 1
 Init == /\ nsent = 0 /\ wnonce = 0 /\ wire = <<>> /\ closed = FALSE
         /\ qlive = FALSE /\ qbuf = <<>> /\ qseek = 0 /\ rnonce = 0 /\ broken = FALSE
         /\ delivered = <<>> /\ rdErr = FALSE /\ under = 0 /\ nfault = 0 /\ errPos = NoFault /\ stopPos = NoFault
-        /\ rg = "none" /\ wg = FALSE /\ loose = FALSE /\ nglitch = 0 /\ wdead = FALSE
+        /\ rg = "none" /\ wg = FALSE /\ wr = FALSE /\ loose = FALSE /\ nglitch = 0 /\ wdead = FALSE
         /\ op = [name |-> "init"]
 
 ----------------------------------------------------------------------------
@@ -120,21 +123,27 @@ Frame(base, n0, k, j) ==
 Write(k) ==
   /\ ~closed /\ ~wdead
   /\ nsent + k <= MaxSent
-  /\ IF wg
+  /\ IF wr
+       THEN \* the first frame is refused whole by the connection: Write returns (0, error), the nonce is spent
+            /\ wire' = wire /\ wnonce' = wnonce + 1 /\ nsent' = nsent
+            /\ wr' = FALSE /\ UNCHANGED <<wg, wdead>>
+            /\ nfault' = nfault + 1 /\ errPos' = Min(errPos, nsent) /\ stopPos' = Min(stopPos, nsent)
+            /\ op' = [name |-> "write", k |-> k, n |-> 0, short |-> FALSE, refused |-> TRUE, frames |-> <<>>]
+       ELSE IF wg
        THEN \* the first frame is cut short by the connection: Write returns (0, error)
             LET f == [Frame(nsent, wnonce, k, 1) EXCEPT !.st = "cut"] IN
             /\ wire' = Append(wire, f)
             /\ wnonce' = wnonce + 1 /\ nsent' = nsent
-            /\ wg' = FALSE /\ wdead' = TRUE
+            /\ wg' = FALSE /\ wdead' = TRUE /\ wr' = wr
             /\ nfault' = nfault + 1 /\ errPos' = Min(errPos, nsent) /\ stopPos' = Min(stopPos, nsent)
-            /\ op' = [name |-> "write", k |-> k, n |-> 0, short |-> TRUE, frames |-> <<Len(f.pt)>>]
+            /\ op' = [name |-> "write", k |-> k, n |-> 0, short |-> TRUE, refused |-> FALSE, frames |-> <<Len(f.pt)>>]
        ELSE LET fs == [j \in 1..NFrames(k) |-> Frame(nsent, wnonce, k, j)] IN
             /\ wire' = wire \o fs
             /\ wnonce' = wnonce + NFrames(k)
             /\ nsent' = nsent + k
-            /\ op' = [name |-> "write", k |-> k, n |-> k, short |-> FALSE,
+            /\ op' = [name |-> "write", k |-> k, n |-> k, short |-> FALSE, refused |-> FALSE,
                       frames |-> [j \in 1..NFrames(k) |-> Len(fs[j].pt)]]
-            /\ UNCHANGED <<wg, wdead, nfault, errPos, stopPos>>
+            /\ UNCHANGED <<wg, wr, wdead, nfault, errPos, stopPos>>
   /\ UNCHANGED <<closed, qlive, qbuf, qseek, rnonce, broken, delivered, rdErr, under, rg, loose, nglitch>>
 
 ----------------------------------------------------------------------------
@@ -155,7 +164,7 @@ ReadQueued(b) ==
              ELSE qlive' = TRUE /\ qbuf' = qbuf /\ qseek' = qseek + c
         /\ op' = [name |-> "read", b |-> b, path |-> "queued", rel |-> RelQ(b, rem), n |-> c, err |-> FALSE,
                   frame |-> 0, glitch |-> "none", loose |-> loose]
-  /\ UNCHANGED <<nsent, wnonce, wire, closed, rnonce, broken, rdErr, under, nfault, errPos, stopPos, rg, wg, loose, nglitch, wdead>>
+  /\ UNCHANGED <<nsent, wnonce, wire, closed, rnonce, broken, rdErr, under, nfault, errPos, stopPos, rg, wg, wr, loose, nglitch, wdead>>
 
 Opens(f) == f.st = "ok" /\ f.n = rnonce /\ ~broken
 
@@ -187,7 +196,7 @@ ReadFrame(b) ==
                   n |-> IF ~good THEN 0 ELSE IF inplace THEN pt ELSE c,
                   err |-> ~good, frame |-> pt, glitch |-> rg, loose |-> (loose \/ rg # "none")]
   /\ rg' = "none" /\ loose' = (loose \/ rg # "none")        \* an armed glitch hits the read of the wire
-  /\ UNCHANGED <<nsent, wnonce, closed, under, nfault, errPos, stopPos, wg, nglitch, wdead>>
+  /\ UNCHANGED <<nsent, wnonce, closed, under, nfault, errPos, stopPos, wg, wr, nglitch, wdead>>
 
 \* nothing in flight and the wire has ended, or framing is lost and the wire ran dry: error, nothing delivered
 ReadEnd(b) ==
@@ -195,7 +204,7 @@ ReadEnd(b) ==
   /\ rdErr' = TRUE
   /\ op' = [name |-> "read", b |-> b, path |-> "end", rel |-> "any", n |-> 0, err |-> TRUE, frame |-> 0,
             glitch |-> "none", loose |-> loose]
-  /\ UNCHANGED <<nsent, wnonce, wire, closed, qlive, qbuf, qseek, rnonce, broken, delivered, under, nfault, errPos, stopPos, rg, wg, loose, nglitch, wdead>>
+  /\ UNCHANGED <<nsent, wnonce, wire, closed, qlive, qbuf, qseek, rnonce, broken, delivered, under, nfault, errPos, stopPos, rg, wg, wr, loose, nglitch, wdead>>
 
 Read(b) == ReadQueued(b) \/ ReadFrame(b) \/ ReadEnd(b)
 
@@ -203,7 +212,7 @@ Short(k) ==
   /\ k # under
   /\ under' = k
   /\ op' = [name |-> "short", k |-> k]
-  /\ UNCHANGED <<nsent, wnonce, wire, closed, qlive, qbuf, qseek, rnonce, broken, delivered, rdErr, nfault, errPos, stopPos, rg, wg, loose, nglitch, wdead>>
+  /\ UNCHANGED <<nsent, wnonce, wire, closed, qlive, qbuf, qseek, rnonce, broken, delivered, rdErr, nfault, errPos, stopPos, rg, wg, wr, loose, nglitch, wdead>>
 
 ----------------------------------------------------------------------------
 (* Wire faults, on a frame still in flight *)
@@ -234,7 +243,7 @@ Fault(kind, i) ==
   /\ stopPos' = IF kind \in {"dup", "swap"} THEN stopPos ELSE Min(stopPos, Before(i))
   /\ nfault' = nfault + 1
   /\ op' = [name |-> "fault", kind |-> kind, i |-> i, of |-> Len(wire)]
-  /\ UNCHANGED <<nsent, wnonce, qlive, qbuf, qseek, rnonce, broken, delivered, rdErr, under, rg, wg, loose, nglitch, wdead>>
+  /\ UNCHANGED <<nsent, wnonce, qlive, qbuf, qseek, rnonce, broken, delivered, rdErr, under, rg, wg, wr, loose, nglitch, wdead>>
 
 \* a Write somewhere else in the process, between two calls of this direction
 Other(who, k) ==
@@ -245,8 +254,9 @@ Other(who, k) ==
 
 Glitch(kind) ==
   /\ kind \in Glitches /\ nglitch = 0 /\ nfault = 0 /\ ~closed /\ ~rdErr
-  /\ \/ kind \in {"dataerr", "temperr"} /\ rg' = kind /\ wg' = wg
-     \/ kind = "shortwrite" /\ wg' = TRUE /\ rg' = rg
+  /\ \/ kind \in {"dataerr", "temperr"} /\ rg' = kind /\ wg' = wg /\ wr' = wr
+     \/ kind = "shortwrite" /\ wg' = TRUE /\ rg' = rg /\ wr' = wr
+     \/ kind = "refusewrite" /\ wr' = TRUE /\ rg' = rg /\ wg' = wg
   /\ nglitch' = 1
   /\ op' = [name |-> "glitch", kind |-> kind]
   /\ UNCHANGED <<nsent, wnonce, wire, closed, qlive, qbuf, qseek, rnonce, broken, delivered, rdErr, under,
@@ -264,7 +274,7 @@ Spec == Init /\ [][Next]_vars
 ----------------------------------------------------------------------------
 (* Properties *)
 
-TypeOK == /\ nsent \in 0..MaxSent /\ wnonce \in 0..MaxSent /\ rnonce \in 0..MaxSent
+TypeOK == /\ nsent \in 0..MaxSent /\ wnonce \in 0..(MaxSent + 1) /\ rnonce \in 0..MaxSent
           /\ qseek \in 0..MaxPT /\ Len(qbuf) <= MaxPT /\ (~qlive => qbuf = <<>> /\ qseek = 0)
           /\ qseek <= Len(qbuf) /\ under \in Shorts \cup {0}
           /\ \A i \in 1..Len(wire) : Len(wire[i].pt) \in 1..MaxPT
